@@ -8,7 +8,7 @@ From Coq Require Import List NArith Bool.
 From JV.gen Require Import DirectiveTables.
 From JV.model Require Import Core.
 From JV.spec Require Import ContextSpec.
-From JV.proofs Require Import ContextProofs.
+From JV.proofs Require Import ContextProofs ShapeProofs.
 Import ListNotations.
 
 (* the admissibility tables REGENERATED from directive/enumeration.go are what the model walks *)
@@ -174,3 +174,62 @@ Theorem flush_cur_is_resolve_step : forall s d,
                 COk (upd_cur (upd_ctx s (fst r) (snd r)) None).
 Proof. exact ContextProofs.flush_cur_is_resolve_step. Qed.
 Print Assumptions flush_cur_is_resolve_step.
+
+(* ---- resolution is by what a directive IS, not by where it stands (proofs/ShapeProofs.v) ----
+   dshape = kind, keyword bytes, named and unnamed parameters, annotation, body present or not, '(' flag:
+   everything but d_kw, the coordinates of the body and the include trace.  Two item lists of equal shapes
+   resolve to forests of equal shapes, or are both rejected at the same item number i (offence: the first i
+   items are accepted, item i - or the end of the input with a '(' open - is not), each with the error value
+   built from its own item i (located) and of the same kind about the same shape (eshape).  No layout notion
+   (indentation, line, offset) exists in the item language at all; this theorem adds that the coordinates the
+   directives DO carry are never consulted.  It composes with resolve_nearest: spec_parent of equal-shape
+   lists is therefore the same function of the position. *)
+Theorem context_ignores_coordinates : forall l1 l2, map ishape l1 = map ishape l2 ->
+  match resolve_all l1, resolve_all l2 with
+  | COk f1, COk f2 => map tshape f1 = map tshape f2
+  | CErr e1, CErr e2 => exists i, offence l1 i e1 /\ offence l2 i e2 /\ same_error l1 l2 i e1 e2
+  | CPanic w1, CPanic w2 => w1 = w2
+  | CFuel, CFuel => True
+  | _, _ => False
+  end.
+Proof. exact ShapeProofs.context_ignores_coordinates. Qed.
+Print Assumptions context_ignores_coordinates.
+
+(* the same for the open context (the zipper) after any prefix *)
+Theorem resolve_ignores_coordinates : forall l1 l2, map ishape l1 = map ishape l2 ->
+  cres_rel (zrel same_shape)
+    (fun e1 e2 => exists i, fails_from ([], []) l1 i e1 /\ fails_from ([], []) l2 i e2 /\ same_error l1 l2 i e1 e2)
+    (resolve l1) (resolve l2).
+Proof. exact ShapeProofs.resolve_ignores_coordinates. Qed.
+Print Assumptions resolve_ignores_coordinates.
+
+(* hence the resolved shape is a FUNCTION of the item shapes (resolve_shapes: the same items at coordinates 0) *)
+Theorem resolution_is_a_function_of_shapes : forall l,
+  match resolve_all l with
+  | COk f => resolve_shapes (map ishape l) = Some (map tshape f)
+  | _ => resolve_shapes (map ishape l) = None
+  end.
+Proof. exact ShapeProofs.resolution_is_a_function_of_shapes. Qed.
+Print Assumptions resolution_is_a_function_of_shapes.
+
+(* the second context resolution, inside macro expansion (paste_list re-resolves every pasted directive) *)
+Theorem expansion_ignores_coordinates : forall ts1 ts2, map tshape ts1 = map tshape ts2 ->
+  match expand ts1, expand ts2 with
+  | COk f1, COk f2 => map tshape f1 = map tshape f2
+  | CErr e1, CErr e2 =>
+    exists d1 d2 k, same_place ts1 ts2 d1 d2 /\ dshape d1 = dshape d2 /\ e1 = kw_err d1 k /\ e2 = kw_err d2 k
+  | CPanic w1, CPanic w2 => w1 = w2
+  | CFuel, CFuel => True
+  | _, _ => False
+  end.
+Proof. exact ShapeProofs.expansion_ignores_coordinates. Qed.
+Print Assumptions expansion_ignores_coordinates.
+
+(* with resolve_nearest: in accepted documents of equal shapes the k-th directive has the same parent, in the
+   forest and in the declarative specification *)
+Theorem parents_ignore_coordinates : forall l1 l2 f1,
+  map ishape l1 = map ishape l2 -> resolve_all l1 = COk f1 ->
+  exists f2, resolve_all l2 = COk f2 /\ map tshape f1 = map tshape f2 /\
+    forall k, parent_index f1 k = parent_index f2 k /\ spec_parent l1 k = spec_parent l2 k.
+Proof. exact ShapeProofs.parents_ignore_coordinates. Qed.
+Print Assumptions parents_ignore_coordinates.
